@@ -20,9 +20,17 @@ QUICK = [
     ("S6", DROP_ASC, 1, "IDS"),
     ("S4", HOLD_DESC, 1, "IDS"),
 ]
-THOROUGH = []
-for _c in (DROP_ASC, HOLD_DESC, DROP_DESC, HOLD_ASC):
-    THOROUGH += [("S1", _c, 3, "IDS"), ("S2", _c, 2, "IDS"), ("S0", _c, 4, "IDS"), ("S2r", _c, 2, "IDS"), ("S4", _c, 2, "IDS"), ("S6", _c, 2, "IDS")]
+THOROUGH = [
+    ("S1", DROP_ASC, 3, "IDS"),
+    ("S1", HOLD_DESC, 2, "IDS"),
+    ("S2", HOLD_DESC, 2, "IDS"),
+    ("S2", DROP_DESC, 2, "IDS"),
+    ("S0", DROP_ASC, 4, "IDS"),
+    ("S2r", DROP_ASC, 2, "IDS"),
+    ("S4", HOLD_ASC, 2, "IDS"),
+    ("S6", DROP_ASC, 2, "IDS"),
+    ("S6", HOLD_DESC, 2, "IDS"),
+]
 
 P = TreeProp(
     "C06",
